@@ -120,7 +120,9 @@ impl CfgModel {
 /// zone strings the administrator may pass: a table abbreviation (any case) or
 /// GMT[+-]h[:mm]; returns (upper-case name, offset minutes)
 pub fn parse_zone(data: &CfgData, tz: &str) -> Option<(String, i32)> {
-    let up = tz.to_uppercase();
+    // set_timezone takes the string as written: table abbreviations and "GMT" are upper case
+    let up = tz.to_string();
+    if !up.chars().all(|c| c.is_ascii_uppercase() || c.is_ascii_digit() || c == '+' || c == '-' || c == ':') { return None; }
     if let Some(off) = data.zones.get(&up) { return Some((up, *off)); }
     if let Some(rest) = up.strip_prefix("GMT") {
         if rest.is_empty() { return None; }
